@@ -144,8 +144,11 @@ class TreeInfo(productmd.common.MetadataBase):
         self.validate()
         parser = self._get_parser()
         self.serialize(parser, main_variant=main_variant)
+        # build the whole text first: what the writer cannot express must fail before the destination is opened
+        text = six.StringIO()
+        self.build_file(parser, text)
         with productmd.common.open_file_obj(f, "w") as f:
-            self.build_file(parser, f)
+            f.write(text.getvalue())
 
 
 class Header(productmd.common.Header):
